@@ -566,6 +566,9 @@ func (t *trzszTransfer) checkDataSize(size int64) error {
 	if maxSize <= 0 || maxSize > 1024*1024*1024 {
 		maxSize = 1024 * 1024 * 1024
 	}
+	if maxSize < 10240 { // the initial buffer size, whatever the maximum is
+		maxSize = 10240
+	}
 	if size < 0 || size > maxSize*2 {
 		return simpleTrzszError("Invalid data size: %d", size)
 	}
